@@ -37,9 +37,9 @@ def draw_k_n(rng, alg, cls):
     """Draw (k, n) inside the cost envelope of DESIGN §1."""
     if alg == "cbldm":
         return 2, rng.randint(1, 12)
-    big = cls == "big"
+    big = cls in ("big", "huge")
     if alg in ("greedy", "roundrobin", "multifit", "kk"):
-        k = rng.choice([1, 2, 2, 3, 3, 4, 5, 7, 9])
+        k = rng.choice([1, 2, 2, 3, 3, 4, 5, 7, 9, 12, 20, 30])
         n = rng.choice([rng.randint(1, 12), rng.randint(1, 12), rng.randint(13, 60), rng.randint(61, 300)])
         if cls == "kgtn":
             n = rng.randint(1, max(1, k - 1)) if k > 1 else 1
@@ -59,20 +59,24 @@ def draw_k_n(rng, alg, cls):
     return k, n
 
 
+def big_cls(cls):
+    return cls in ("big", "huge")
+
+
 def draw_partition_case(rng, alg=None, cls=None, pres=None, algs=ALL_PART, classes=None):
     alg = alg or rng.choice(algs)
-    classes = classes or ("small", "zeros", "equal", "ties", "kgtn", "big", "grid", "perfect", "powers", "onehuge")
+    classes = classes or ("small", "zeros", "equal", "ties", "kgtn", "big", "huge", "grid", "perfect", "powers", "onehuge")
     cls = cls or rng.choice(classes)
-    if alg == "ilp" and cls in ("big", "powers", "onehuge", "perfect", "nearperfect"):
+    if alg == "ilp" and cls in ("big", "huge", "powers", "onehuge", "perfect", "nearperfect"):
         cls = "small"
     k, n = draw_k_n(rng, alg, cls)
     values = gen.part_values(rng, cls, n, k)
     if alg == "ilp":
         values = [min(v, 200) for v in values]
-    if alg in ("dp",) and cls == "big":
+    if alg in ("dp",) and big_cls(cls):
         values = values[:6]
-    if alg in EXACT_ALGS and len(values) > max_n(alg, k, cls == "big"):
-        values = values[:max_n(alg, k, cls == "big")]
+    if alg in EXACT_ALGS and len(values) > max_n(alg, k, big_cls(cls)):
+        values = values[:max_n(alg, k, big_cls(cls))]
     case = {"kind": "partition", "alg": alg, "k": k, "values": values, "cls": cls,
             "pres": pres or rng.choice(PRESENTATIONS), "pres_seed": rng.randrange(1 << 30)}
     if alg == "cg":
